@@ -3,7 +3,8 @@
     (no well-formedness is needed unless stated), every targets pair, every store oracle
     ([sat], [mined_at] arbitrary functions) and every RNG script. *)
 From V.Lib Require Import Base.
-From V.C18 Require Import Model Spec Corr Wf Store ProofsDead ProofsKernel ProofsLife ProofsDrive ProofsSeq ProofsStrand Bridge ProofsStore.
+From V.Gen Require Import C18Consts.
+From V.C18 Require Import Model Spec Corr Wf Store ProofsDead ProofsKernel ProofsLife ProofsDrive ProofsRebuild ProofsSeq ProofsStrand ProofsTerm ProofsTotal Bridge ProofsStore.
 From Coq Require Import Sorted.
 Local Open Scope Z_scope.
 
@@ -46,12 +47,39 @@ Theorem C18_advance_spec : forall sat mined_at s tg r st s' dirty,
   /\ from_kernel s' tg st.
 Proof. exact advance_spec. Qed.
 
-(** Lifecycle: one event, whatever it records and for whichever row: every event but a rollback
-    moves rows forward only (they keep place and id), and a rollback to [h] turns exactly the
-    rows mined above [h] into [Bcast] and leaves every other row's state alone. *)
+(** Termination: with unique transaction ids and a served target that fits [u32], the drive loop
+    never exhausts its fuel [4|txs|+8] — [advance] always returns a step — and every event
+    sequence runs to its end.  (Measure: pending rows scheduled below the served target + unmarked
+    rows + rows not set aside; every iteration that does not return decreases it.)  So none of
+    the theorems about [advance] / [grun] is vacuous for want of a result. *)
+Theorem C18_advance_total : forall sat mined_at s tg r,
+  NoDup (map t_id (m_txs s)) -> tg_eff tg <= U32MAX ->
+  exists st s' dirty, advance sat mined_at s tg r = ARes st s' dirty.
+Proof. exact advance_total. Qed.
+Theorem C18_run_total : forall es s, NoDup (map t_id (m_txs s)) -> Forall event_ok es ->
+  exists s', grun s es = Some s' /\ map t_id (m_txs s') = map t_id (m_txs s).
+Proof. exact grun_total. Qed.
+
+(** The plain [u32] addition left in the overdue test cannot overflow: it is only evaluated on
+    members of a Prove step, whose anchor boundaries are at least [PROVABLE_ANCHOR_DEPTH+1] below
+    [u32::MAX]. *)
+Theorem C18_prove_candidate_no_overflow : forall s tg sa l id k, next_step s tg sa = SProve l -> In (id, k) l ->
+  tg_scanned tg <= U32MAX ->
+  exists t, In t (m_txs s) /\ t_id t = id /\
+    forall b, t_anchor t = Some b -> b + PROVABLE_ANCHOR_DEPTH + 1 <= U32MAX.
+Proof. exact prove_candidate_no_overflow. Qed.
+
+(** Lifecycle: one event, whatever it records and for whichever row.  Every event moves rows
+    forward only (they keep place and id) with two explicit exceptions: a rollback to [h] turns
+    exactly the rows mined above [h] into [Bcast]; a rebuild replaces at most the one row with the
+    given id, and only an unmined, unmarked transfer expired at the target, by a NEW transaction
+    under the same id (same kind and dependencies) that is pre-signed or awaits its signature, is
+    scheduled at or after the target and is not expired there. *)
 Theorem C18_step_lifecycle : forall s e s', gstep s e = Some s' ->
   match e with
   | GRollback h => rows (fun a b => b = unmine h a) (m_txs s) (m_txs s')
+  | GRebuild id target _ _ _ delay _ _ =>
+    0 <= delay -> target <= U32MAX -> Forall2 (rebuilt_rel id target) (m_txs s) (m_txs s')
   | _ => monotone (m_txs s) (m_txs s')
   end.
 Proof. exact step_lifecycle. Qed.
@@ -60,20 +88,37 @@ Theorem C18_rollback_exact : forall s h,
   rows (fun a b => b = unmine h a) (m_txs s) (m_txs (truncate_to_height s h)).
 Proof. exact rollback_exact. Qed.
 
-(** Lifecycle: every rollback-free event sequence (no driver contract is needed any more: the
-    two recordings that used to demote a row were repaired, see known_findings.d/C18.json). *)
+Theorem C18_rebuild_exact : forall s id target grid_ok crypto_ok external delay anchor txid,
+  0 <= delay -> target <= U32MAX ->
+  Forall2 (rebuilt_rel id target) (m_txs s)
+          (m_txs (fst (rebuild s id target grid_ok crypto_ok external delay anchor txid))).
+Proof. exact rebuild_exact. Qed.
+
+(** What the kernel offers for rebuild passes the state guards of the rebuild (in a state whose
+    mined rows carry no mark, as every state the API produces). *)
+Theorem C18_rebuild_offer_passes_guards : forall s tg sa id, next_step s tg sa = SRebuild id ->
+  NoDup (map t_id (m_txs s)) ->
+  (forall x, In x (m_txs s) -> is_mined x = true -> t_unsat x = None) ->
+  rebuild_guard s id (tg_scanned tg) true = None.
+Proof. exact rebuild_offer_passes_guards. Qed.
+
+(** Lifecycle: every event sequence free of the two exceptions is monotone. *)
 Theorem C18_lifecycle_monotone : forall es s s',
-  Forall (fun e => ~ is_rollback e) es -> grun s es = Some s' ->
+  Forall (fun e => ~ is_rollback e /\ ~ is_rebuild e) es -> grun s es = Some s' ->
   monotone (m_txs s) (m_txs s').
 Proof. exact lifecycle_monotone. Qed.
 
-(** Lifecycle: every event sequence, rollbacks included: a row ends below its starting rank only
-    as a mined row that is back in flight ([Bcast]) or later. *)
-Theorem C18_lifecycle_any_sequence : forall es s s', grun s es = Some s' ->
-  rows fwd_or_unmined (m_txs s) (m_txs s').
+(** Lifecycle: every rebuild-free sequence, rollbacks included: a row ends below its starting
+    rank only as a mined row that is back in flight ([Bcast]) or later. *)
+Theorem C18_lifecycle_any_sequence : forall es s s', Forall (fun e => ~ is_rebuild e) es ->
+  grun s es = Some s' -> rows fwd_or_unmined (m_txs s) (m_txs s').
 Proof. exact lifecycle_any_sequence. Qed.
 
-(** A fully mined migration stays fully mined over every rollback-free sequence. *)
+(** Only a rollback un-mines: over every rollback-free sequence (rebuilds included) a mined row
+    stays mined, hence a fully mined migration stays fully mined. *)
+Theorem C18_mined_stays_mined : forall es s s', Forall (fun e => ~ is_rollback e) es -> grun s es = Some s' ->
+  Forall2 mined_kept (m_txs s) (m_txs s').
+Proof. exact mined_stays_mined. Qed.
 Theorem C18_complete_stays_all_mined : forall es s s', all_mined (m_txs s) = true ->
   Forall (fun e => ~ is_rollback e) es -> grun s es = Some s' -> all_mined (m_txs s') = true.
 Proof. exact complete_stays_all_mined. Qed.
@@ -124,6 +169,29 @@ Theorem C18_drive_stranded_surfaces : forall sat mined_at, (forall t h, sat t <>
   advance sat mined_at s tg r = ARes st s' dirty -> stranded s' tg ->
   st = SReevaluate \/ st = SReplan \/ exists id, st = SRebuild id.
 Proof. exact advance_stranded_surfaces. Qed.
+
+(** ... and for EVERY store, deferring ones included (unique ids, served target in [u32]):
+    [Waiting] always has a reason that can still move — a live unmined transaction, or a candidate
+    row the store answered "not yet satisfiable" for in this very call; a stranded migration gets
+    [Reevaluate], [Replan] or [Rebuild], and [Waiting] only with such a deferral; [Reevaluate]
+    names a standing report whose tip the store's answer does not reach. *)
+Theorem C18_waiting_every_store : forall sat mined_at s tg r s' dirty,
+  NoDup (map t_id (m_txs s)) -> tg_eff tg <= U32MAX ->
+  advance sat mined_at s tg r = ARes SWaiting s' dirty -> m_txs s' <> [] ->
+  (exists t, In t (m_txs s') /\ unmined t /\ ~ Dead (m_txs s') (tg_scanned tg) (t_id t))
+  \/ (exists id, deferred sat s' id).
+Proof. exact advance_waiting_every_store. Qed.
+Theorem C18_stranded_every_store : forall sat mined_at s tg r st s' dirty,
+  NoDup (map t_id (m_txs s)) -> tg_eff tg <= U32MAX ->
+  advance sat mined_at s tg r = ARes st s' dirty -> stranded s' tg ->
+  st = SReevaluate \/ st = SReplan \/ (exists id, st = SRebuild id)
+  \/ (st = SWaiting /\ exists id, deferred sat s' id).
+Proof. exact advance_stranded_every_store. Qed.
+Theorem C18_reevaluate_reason : forall sat mined_at s tg r s' dirty,
+  NoDup (map t_id (m_txs s)) -> tg_eff tg <= U32MAX ->
+  advance sat mined_at s tg r = ARes SReevaluate s' dirty ->
+  exists t tip, In t (m_txs (fst (sweep sat mined_at s tg))) /\ t_fail t = Some tip /\ as_of (sat t) < tip.
+Proof. exact advance_reevaluate_reason. Qed.
 
 (** The dead set: the loop computes exactly the inductively specified set, it is the least set
     containing the seeds and closed under dependents, and it is a fixpoint of the pass (reached
